@@ -123,7 +123,7 @@ theorem cinv_set_other (s : CState) (a : Nat) (p : Pipe) (pc : Pc) (hpc : pc ≠
   · intro b p' hb; exact hacc b p' (key b p' hb)
   · intro b c p' q' hbc hb hc; exact huniq b c p' q' hbc (key b p' hb) (key c q' hc)
 
-theorem cstep_inv (s s' : CState) (a : Nat) (h : CInv s) (hs : cstep s a = some s') : CInv s' := by
+theorem cstep_inv (s s' : CState) (a : Nat) (h : CInv s) (hs : cstep true s a = some s') : CInv s' := by
   unfold cstep at hs
   cases hpa : s.pcs[a]? with
   | none => simp [hpa] at hs
@@ -144,7 +144,7 @@ theorem cstep_inv (s s' : CState) (a : Nat) (h : CInv s) (hs : cstep s a = some 
         simp only [hf, Option.some.injEq] at hs; subst hs
         exact cinv_set_other s a p _ (by simp) halt h
     | checked =>
-      simp only [hpa] at hs
+      simp only [hpa, if_true] at hs
       cases hf : s.reg.find p.name with
       | some q =>
         simp only [hf, Option.some.injEq] at hs; subst hs
@@ -197,12 +197,15 @@ theorem cstep_inv (s s' : CState) (a : Nat) (h : CInv s) (hs : cstep s a = some 
 /-- **Concurrent creates keep the registry functional**: for every schedule of any number of callers,
 the registry holds at most one pipe per name, every caller that was told "created" finds a pipe of its
 name registered, and no two callers were told "created" for the same name. -/
-theorem registry_functional (s : CState) (sched : List Nat) (h : CInv s) : CInv (crun s sched) := by
+theorem registry_functional (s : CState) (sched : List Nat) (h : CInv s) :
+    CInv (crun Generated.C19.createPipeRechecks s sched) := by
+  have hfact : Generated.C19.createPipeRechecks = true := by decide
+  rw [hfact]
   induction sched generalizing s with
   | nil => simpa [crun] using h
   | cons a as ih =>
     simp only [crun]
-    cases hs : cstep s a with
+    cases hs : cstep true s a with
     | none => exact ih s h
     | some s' => exact ih s' (cstep_inv s s' a h hs)
 
@@ -210,7 +213,7 @@ theorem registry_functional (s : CState) (sched : List Nat) (h : CInv s) : CInv 
 critical sections, two different callers never both succeed for one name. -/
 theorem concurrent_same_name_one_winner (r : Reg) (hr : r.Nodup) (wants : List Pipe) (sched : List Nat)
     (a b : Nat) (p q : Pipe) (hab : a ≠ b) :
-    let s := crun ⟨r, wants.map (fun w => (w, Pc.start))⟩ sched
+    let s := crun Generated.C19.createPipeRechecks ⟨r, wants.map (fun w => (w, Pc.start))⟩ sched
     s.pcs[a]? = some (p, Pc.done true) → s.pcs[b]? = some (q, Pc.done true) → p.name ≠ q.name := by
   intro s ha hb
   have h0 : CInv ⟨r, wants.map (fun w => (w, Pc.start))⟩ := by
@@ -231,7 +234,13 @@ example : (listing [pB, pA]).map (·.name) = [[97], [98]] := by
 example : Reg.Nodup [pA, pB] ∧ Reg.find [pA, pB] pA'.name = some pA := by
   unfold Reg.Nodup; decide
 /-- two racing creators of one name: one schedule where the second section of the first caller runs last -/
-example : (crun ⟨[], [(pA, .start), (pA', .start)]⟩ [0, 1, 1, 0]).pcs = [(pA, .done false), (pA', .done true)] := by
+example : (crun true ⟨[], [(pA, .start), (pA', .start)]⟩ [0, 1, 1, 0]).pcs = [(pA, .done false), (pA', .done true)] := by
+  decide
+
+/-- why the re-check matters: without it the same schedule tells BOTH callers "created" (this is what
+`registry_functional` would have to face if the second look-up were removed from the code) -/
+theorem cex_without_recheck :
+    (crun false ⟨[], [(pA, .start), (pA', .start)]⟩ [0, 1, 1, 0]).pcs = [(pA, .done true), (pA', .done true)] := by
   decide
 
 end Logrange.Props.C19
